@@ -364,6 +364,45 @@ static void run_owning_listy(const std::vector<long long>& seq, const char* fami
    }
 }
 
+// Owning flavour over std::string elements: keys handed to insert() as named objects, as temporaries and as std::move'd
+// objects; comparators that take the key by const reference, by value, and by rvalue reference (the comparator's signature is
+// the client's business).  Whatever the value category of the key and however the comparator receives it, the element stored
+// is the key that was inserted: found again under that key, equal keys add nothing, in-order sequence ascending.
+struct StrCmpRef { int operator()(const std::string& a, const std::string& k) const { return a.compare(k) < 0 ? -1 : (a.compare(k) > 0 ? 1 : 0); } };
+struct StrCmpVal { int operator()(const std::string& a, std::string k) const { return a.compare(k) < 0 ? -1 : (a.compare(k) > 0 ? 1 : 0); } };
+static void run_owning_strings(const std::vector<long long>& seq, const char* family)
+{
+   auto& C = ctx();
+   auto J0 = [&] { return J().s("family", family).raw("seq", seq_json(seq)).str(); };
+   auto spell = [](long long k) { return "key-" + std::to_string(k) + std::string(std::size_t(20 + (k & 7)), char('a' + (k % 26 + 26) % 26)); };     // longer than any small-string buffer
+   for (int mode = 0; mode < 6; ++mode) {
+      OCont<std::string> tree; std::map<std::string, std::string*> first; Shape sh;
+      Validator<rb::node<std::string>, NodeCmp<std::string, StrCmpRef>> val;
+      const char* how = mode == 0 ? "named-key/ref-comparator" : mode == 1 ? "temporary-key/ref-comparator" : mode == 2 ? "moved-key/ref-comparator" : mode == 3 ? "named-key/value-comparator" : mode == 4 ? "temporary-key/value-comparator" : "moved-key/value-comparator";
+      for (long long k : seq) {
+         const std::string want = spell(k);
+         std::string named = want;
+         std::string* p = nullptr;
+         switch (mode) {
+         case 0: p = tree.insert(named, StrCmpRef{}); break;
+         case 1: p = tree.insert(spell(k), StrCmpRef{}); break;
+         case 2: p = tree.insert(std::move(named), StrCmpRef{}); break;
+         case 3: p = tree.insert(named, StrCmpVal{}); break;
+         case 4: p = tree.insert(spell(k), StrCmpVal{}); break;
+         default: p = tree.insert(std::move(named), StrCmpVal{}); break;
+         }
+         C.count("string_keys_inserted_by_value_category_and_comparator_signature");
+         if (!p || *p != want) { C.viol(std::string("owning-strings:element:") + how, std::string("the element stored is not the key that was inserted (") + how + ")", J0()); return; }
+         auto it = first.find(want);
+         if (it == first.end()) first[want] = p; else if (it->second != p) { C.viol(std::string("owning-strings:dup-address:") + how, "inserting an equal key did not return the existing element", J0()); return; }
+         if (tree.size() != (long long)first.size()) { C.viol(std::string("owning-strings:size:") + how, "size() != number of distinct keys", J0()); return; }
+         std::string e = val.validate(tree.get_root(), (long long)first.size(), sh); C.count("validations");
+         if (!e.empty()) { C.viol(std::string("owning-strings:shape:") + how + ":" + e.substr(0, 40), e, J0()); return; }
+      }
+      for (auto& [k, p] : first) if (tree.find(k, StrCmpRef{}) != p || *p != k) { C.viol(std::string("owning-strings:find:") + how, "an inserted key is not found (or the element stored under it changed)", J0()); return; }
+   }
+}
+
 // Owning flavour over integer keys with duplicates allowed.
 static void run_owning_int(const std::vector<long long>& seq, const char* family, long long every, bool count_case)
 {
@@ -506,7 +545,7 @@ static void body(Ctx& C)
    C.assume("comparators supplied by the harness are total orders");
    C.assume("exhaustive only up to the stated bounds; longer sequences are sampled");
    for (int i = 0; i < 6; ++i) C.need(std::string("fixup_case_") + std::to_string(i));
-   C.need("wide_result_sequences"); C.need("intrusive_duplicates_offered"); C.need("rejected_nodes_offered_to_a_second_chain"); C.need("insertions_refused_by_the_element_constructor"); C.need("insertions_of_elements_with_a_list_constructor"); C.need("recycled_sole_members_inserted"); C.need("linked_nodes_offered_again_to_their_own_chain"); C.need("insertions_right_after_a_missed_lookup_through_the_same_object");
+   C.need("wide_result_sequences"); C.need("intrusive_duplicates_offered"); C.need("rejected_nodes_offered_to_a_second_chain"); C.need("insertions_refused_by_the_element_constructor"); C.need("insertions_of_elements_with_a_list_constructor"); C.need("recycled_sole_members_inserted"); C.need("linked_nodes_offered_again_to_their_own_chain"); C.need("string_keys_inserted_by_value_category_and_comparator_signature"); C.need("insertions_right_after_a_missed_lookup_through_the_same_object");
 
    const int maxn = C.thorough ? 9 : 8;
    // -- all permutations of 1..n ------------------------------------------------------
@@ -535,6 +574,7 @@ static void body(Ctx& C)
                run_intrusive_dups(s, "dupseq");
                run_owning_refusing(s, "dupseq");
                run_owning_listy(s, "dupseq");
+               if (idx % 5 == 0) run_owning_strings(s, "dupseq");
                C.count("dup_sequences");
                C.eval(hash_bytes(std::string_view(reinterpret_cast<const char*>(s.data()), s.size() * sizeof(long long)), 7));
                if (len == 6 && alphabet == 5) C.sample(J().s("kind", "dup-sequence").raw("seq", seq_json(s)).str(), 3);
